@@ -46,6 +46,18 @@ def generate(rng, tier):
             for kind in ("bytes", "file", "socket"):
                 chunks = [part] if kind == "bytes" else pu.cut(rng, part, rng.choice(["one", 4096, "rand"]))
                 yield pu.frame_line(0, pu.REAL_TRIM, kind, -1 if len(chunks) <= 1 else 0, chunks), "length-boundary"
+    # degenerate but valid headers: all-zero (looks like zero fill), all-ones fields, idle APID; followed by more packets
+    special = [dict(ver=0, typ=0, shf=0, apid=0, sf=0, sc=0), dict(ver=7, typ=1, shf=1, apid=2047, sf=3, sc=16383),
+               dict(ver=0, typ=0, shf=0, apid=2047, sf=3, sc=0), dict(ver=0, typ=0, shf=0, apid=0, sf=3, sc=0)]
+    for h in special:
+        for dl in (1, 2, 256):
+            for pos in (0, 1, 2):
+                pk = [pu.mk_packet(rng, rng.choice([1, 3, 8])) for _ in range(2)]
+                pk.insert(pos, pu.mk_packet(rng, dl, **h))
+                data = b"".join(pk)
+                for kind in ("bytes", "file", "socket"):
+                    chunks = [data] if kind == "bytes" else pu.cut(rng, data, rng.choice(["one", 3, "rand"]))
+                    yield pu.frame_line(0, pu.REAL_TRIM, kind, -1 if len(chunks) <= 1 else 0, chunks), "special-header"
     nrand = 150 if tier == "quick" else 100000
     for _ in range(nrand):
         ln = rng.choice([1, 5, 6, 7, 8, 13, 14, 40, 300])
